@@ -259,6 +259,86 @@ fn apply_one(root: &Path, f: &Fault, target: &str, created: &mut Vec<String>) ->
             let d = fs::read(other).ok()?;
             (d, format!("{target} now holds the bytes of {}", other.file_name()?.to_string_lossy()))
         }
+        "src-empty-coll" => {
+            // an innermost collection (XML <array>/<dict>, OpenStep (...) / {...}) loses its members:
+            // "empty" and "absent" are different values, and readers tend to confuse them
+            let text = String::from_utf8_lossy(&data).to_string();
+            let xml = text.trim_start().starts_with('<');
+            let mut spans: Vec<(usize, usize, &str)> = Vec::new();
+            if xml {
+                for (open, close, empty) in [("<array>", "</array>", "<array/>"), ("<dict>", "</dict>", "<dict/>")] {
+                    let mut from = 0;
+                    while let Some(i) = text[from..].find(open) {
+                        let start = from + i;
+                        let inner = start + open.len();
+                        if let Some(j) = text[inner..].find(close) {
+                            let body = &text[inner..inner + j];
+                            if !body.contains("<array>") && !body.contains("<dict>") && !body.trim().is_empty() {
+                                spans.push((start, inner + j + close.len(), empty));
+                            }
+                        }
+                        from = inner;
+                    }
+                }
+            } else {
+                for (open, close, empty) in [('(', ')', "()"), ('{', '}', "{}")] {
+                    let mut stack: Vec<usize> = Vec::new();
+                    let mut nested_since: Vec<bool> = Vec::new();
+                    let mut in_str = false;
+                    for (i, c) in text.char_indices() {
+                        if c == '"' {
+                            in_str = !in_str;
+                        }
+                        if in_str {
+                            continue;
+                        }
+                        if c == '(' || c == '{' {
+                            for n in nested_since.iter_mut() {
+                                *n = true;
+                            }
+                            if c == open {
+                                stack.push(i);
+                                nested_since.push(false);
+                            }
+                        } else if c == close {
+                            if let (Some(start), Some(nested)) = (stack.pop(), nested_since.pop()) {
+                                if !nested && !text[start + 1..i].trim().is_empty() {
+                                    spans.push((start, i + 1, empty));
+                                }
+                            }
+                        }
+                    }
+                }
+            }
+            if spans.is_empty() {
+                return None;
+            }
+            spans.sort();
+            let (a, b, empty) = spans[rng.below(spans.len())];
+            let new = format!("{}{}{}", &text[..a], empty, &text[b..]);
+            (new.into_bytes(), format!("collection at {a}..{b} of {target} emptied ({})", crate::oracle::trunc(&text[a..b].replace('\n', " "), 60)))
+        }
+        "src-dup-few" | "src-drop-few" => {
+            let lines: Vec<&[u8]> = data.split_inclusive(|b| *b == b'\n').collect();
+            if lines.is_empty() {
+                return None;
+            }
+            let a = rng.below(lines.len());
+            let len = 1 + rng.below((lines.len() - a).min(3));
+            let mut d = Vec::new();
+            for (i, l) in lines.iter().enumerate() {
+                if f.kind == "src-drop-few" && i >= a && i < a + len {
+                    continue;
+                }
+                d.extend_from_slice(l);
+                if f.kind == "src-dup-few" && i + 1 == a + len {
+                    for l2 in &lines[a..a + len] {
+                        d.extend_from_slice(l2);
+                    }
+                }
+            }
+            (d, format!("{} lines {a}..{} of {target}", if f.kind == "src-dup-few" { "duplicated" } else { "dropped" }, a + len))
+        }
         "src-dup-lines" | "src-drop-lines" => {
             let lines: Vec<&[u8]> = data.split_inclusive(|b| *b == b'\n').collect();
             if lines.is_empty() {
@@ -505,6 +585,9 @@ pub const BYTE_FAULT_KINDS: &[&str] = &[
     "src-tokens",
     "src-long",
     "src-chain",
+    "src-empty-coll",
+    "src-dup-few",
+    "src-drop-few",
 ];
 
 // ---- token-level mutation, long strings, deep component chains ----
